@@ -53,10 +53,10 @@ class Profile:
             "walk_every": P.pick(rng, [1, 2, 5, 0]),
             "n_ops": rng.randint(8, 40),
             "auto_ts": rng.random() < 0.8,
-            "set_kinds": ["block", "group", "array", "tag", "mtag", "source", "section", "feature", "prop"],
+            "set_kinds": ["block", "group", "array", "frame", "tag", "mtag", "source", "section", "feature", "prop"],
             "link_owner_kinds": ["group", "array", "tag", "mtag"],
             "md_kinds": ["block", "group", "array", "frame", "tag", "mtag", "source"],
-            "delete_kinds": ["block", "group", "array", "tag", "mtag", "source", "section", "prop", "feature"],
+            "delete_kinds": ["block", "group", "array", "frame", "tag", "mtag", "source", "section", "prop", "feature"],
             "clock": P.pick(rng, ["tick", "stall", "mixed", "jumps"]),
             "off": [],
         }
